@@ -49,7 +49,7 @@ def discharge(ctx, ob, timeout_ms=10000, use_cvc5=False):
         r = s.check()
         return {"status": "refuted" if r == z3.unsat else "proved", "time": time.time() - t0, "backend": "z3", "canary_result": str(r)}
     full_timeout = timeout_ms
-    first = max(2000, timeout_ms // 3)
+    first = min(2500, max(1000, timeout_ms // 3))
     s = _mk_solver(ctx, ob, first)
     goal = ob.goal
     ctx_axioms = [] if ob.meta.get("pure") else list(ctx.axioms)
